@@ -49,8 +49,36 @@ Theorem C20_did_jwk_single_method : forall did key,
   /\ resolve_method d (query_of_url (jwk_method_id did)) (Some (SRel RKeyAgr)) = None.
 Proof. exact did_jwk_single_method. Qed.
 
+(* attach_handler histories (HashMap insert): the handler in force for a method is the one attached
+   LAST for it, a method never attached is unsupported, and an attachment for one method leaves the
+   resolution of every DID of another method unchanged - for EVERY history, handler and DID *)
+Theorem C20_last_attachment_wins : forall before after m h,
+  (forall e, In e after -> fst e <> m) ->
+  lookup (table_of (before ++ (m, h) :: after)) m = Some h.
+Proof. exact last_attachment_wins. Qed.
+Theorem C20_never_attached_unsupported : forall hist m,
+  lookup (table_of hist) m = None <-> (forall e, In e hist -> fst e <> m).
+Proof. exact never_attached_unsupported. Qed.
+Theorem C20_attach_other_method_irrelevant : forall accepts answer t m h d,
+  r_method d <> m -> resolve (attach_handler t m h) accepts answer d = resolve t accepts answer d.
+Proof. exact attach_other_method_irrelevant. Qed.
+Theorem C20_attach_same_method_replaces : forall accepts answer t m h d,
+  r_method d = m ->
+  resolve (attach_handler t m h) accepts answer d =
+    if accepts h d then (match answer h d with Some doc => ROk doc | None => RErr EHandler end, [(h, d)])
+    else (RErr EParse, []).
+Proof. exact attach_same_method_replaces. Qed.
+Example C20_attach_history_nonvacuous :
+  lookup (table_of [(1, 10); (2, 20); (1, 11); (3, 30)]) 1 = Some 11
+  /\ lookup (table_of [(1, 10); (2, 20); (1, 11); (3, 30)]) 4 = None.
+Proof. split; reflexivity. Qed.
+
 Print Assumptions C20_dispatch_exact.
 Print Assumptions C20_only_registered_handler_called.
 Print Assumptions C20_multiple_order_indep.
 Print Assumptions C20_one_entry_per_distinct.
 Print Assumptions C20_did_jwk_single_method.
+Print Assumptions C20_last_attachment_wins.
+Print Assumptions C20_never_attached_unsupported.
+Print Assumptions C20_attach_other_method_irrelevant.
+Print Assumptions C20_attach_same_method_replaces.
